@@ -178,12 +178,22 @@ class CouplingLevyCopulaSimulation:
 
             projected_position = CoordinateND(position[k] for k in axis_coordinates)
             projected_value = tuple(value[k] for k in axis_coordinates)
+            # the neighbours of an odd coordinate are read on ITS OWN axis (the axes may differ)
+            projected_axes = [grid.axes[k] for k in axis_coordinates]
+
+            def projected_state(coordinates):
+                return tuple(
+                    axis[min(len(axis) - 1, max(0, c))]
+                    for axis, c in zip(projected_axes, coordinates)
+                )
 
             projected_mid_left_value = grid.middle(
-                grid.left_point(projected_position), projected_value
+                projected_state(projected_position + [-1] * len(axis_coordinates)),
+                projected_value,
             )
             projected_mid_right_value = grid.middle(
-                projected_value, grid.right_point(projected_position)
+                projected_value,
+                projected_state(projected_position + [1] * len(axis_coordinates)),
             )
             total_mass = mass(
                 projected_mid_left_value, projected_mid_right_value, axis_coordinates
@@ -191,7 +201,7 @@ class CouplingLevyCopulaSimulation:
 
             probability = 0
             for p in product([-1, 1], repeat=len(axis_coordinates)):
-                p_value = grid[projected_position + p]
+                p_value = projected_state(projected_position + p)
                 p_middle_value = grid.middle(p_value, projected_value)
                 min_max = tuple(
                     (min(p1, p2), max(p1, p2))
